@@ -679,6 +679,11 @@ func Extract(hi, lo int, a *Term) *Term {
 		}
 	case "extract":
 		return Extract(hi+a.B, lo+a.B, a.Args[0])
+	case "bvor", "bvand", "bvxor":
+		// bitwise operators commute with extraction; worthwhile when one side is a constant
+		if len(a.Args) == 2 && (a.Args[0].IsConst() || a.Args[1].IsConst()) {
+			return bin(a.Op, Extract(hi, lo, a.Args[0]), Extract(hi, lo, a.Args[1]))
+		}
 	}
 	return intern(&Term{Op: "extract", W: w, Args: []*Term{a}, A: hi, B: lo})
 }
@@ -985,4 +990,69 @@ func Vars(t *Term, limit int) []*Term {
 	}
 	rec(t)
 	return out
+}
+
+// knownBits: a conservative (mask, value) pair — every bit set in mask has the value given in val
+// whatever the variables are. Used to prune constant tables before they reach the solver.
+func knownBits(t *Term, depth int) (mask, val *big.Int) {
+	all := new(big.Int).Sub(new(big.Int).Lsh(big.NewInt(1), uint(t.W)), big.NewInt(1))
+	if t.IsConst() {
+		return all, new(big.Int).Set(t.Val)
+	}
+	// bits at or above the unsigned bound are zero
+	mask = new(big.Int)
+	val = new(big.Int)
+	if t.ub < t.W {
+		hi := new(big.Int).Lsh(new(big.Int).Sub(new(big.Int).Lsh(big.NewInt(1), uint(t.W-t.ub)), big.NewInt(1)), uint(t.ub))
+		mask.Or(mask, hi)
+	}
+	if depth <= 0 {
+		return mask, val
+	}
+	merge := func(m, v *big.Int) {
+		mask.Or(mask, m)
+		val.Or(val, new(big.Int).And(v, m))
+	}
+	constShift := func(a *Term) (int, bool) {
+		if a.IsConst() && a.Val.IsInt64() && a.Val.Int64() >= 0 && a.Val.Int64() < int64(t.W) {
+			return int(a.Val.Int64()), true
+		}
+		return 0, false
+	}
+	switch t.Op {
+	case "zext":
+		m, v := knownBits(t.Args[0], depth-1)
+		hi := new(big.Int).Lsh(new(big.Int).Sub(new(big.Int).Lsh(big.NewInt(1), uint(t.W-t.Args[0].W)), big.NewInt(1)), uint(t.Args[0].W))
+		merge(new(big.Int).Or(m, hi), v)
+	case "concat":
+		mh, vh := knownBits(t.Args[0], depth-1)
+		ml, vl := knownBits(t.Args[1], depth-1)
+		lw := uint(t.Args[1].W)
+		merge(new(big.Int).Or(new(big.Int).Lsh(mh, lw), ml), new(big.Int).Or(new(big.Int).Lsh(vh, lw), vl))
+	case "bvor", "bvand":
+		if len(t.Args) != 2 {
+			break
+		}
+		ma, va := knownBits(t.Args[0], depth-1)
+		mb, vb := knownBits(t.Args[1], depth-1)
+		one := func(m, v *big.Int) *big.Int { return new(big.Int).And(m, v) }
+		zero := func(m, v *big.Int) *big.Int { return new(big.Int).AndNot(m, v) }
+		var k1, k0 *big.Int
+		if t.Op == "bvor" {
+			k1 = new(big.Int).Or(one(ma, va), one(mb, vb))
+			k0 = new(big.Int).And(zero(ma, va), zero(mb, vb))
+		} else {
+			k1 = new(big.Int).And(one(ma, va), one(mb, vb))
+			k0 = new(big.Int).Or(zero(ma, va), zero(mb, vb))
+		}
+		merge(new(big.Int).Or(k1, k0), k1)
+	case "bvshl":
+		if n, ok := constShift(t.Args[1]); ok {
+			m, v := knownBits(t.Args[0], depth-1)
+			low := new(big.Int).Sub(new(big.Int).Lsh(big.NewInt(1), uint(n)), big.NewInt(1))
+			merge(new(big.Int).And(new(big.Int).Or(new(big.Int).Lsh(m, uint(n)), low), all), new(big.Int).And(new(big.Int).Lsh(v, uint(n)), all))
+		}
+	}
+	val.And(val, mask)
+	return mask, val
 }
